@@ -79,6 +79,52 @@ def dry_vs_real(rng, driver, vcs, license_fault=False):
     return pr, case, op, None
 
 
+def dry_vs_real_fetch(rng, driver):
+    """a clone whose remote holds a version tag that is not fetched yet: `update --dry` (which fetches, like the real run) must predict
+    what the real run with the same arguments does"""
+    major, minor, patch = rng.randint(0, 3), rng.randint(0, 12), rng.randint(0, 30)
+    cur = "%d.%d.%d" % (major, minor, patch)
+    remote_new = "%d.%d.%d" % (major, minor, patch + rng.randint(1, 12)) if rng.random() < 0.7 else "%d.%d.0" % (major, minor + rng.randint(1, 3))
+    flag = rng.choice(["--patch", "--minor", "--major"])
+    fetch_args = rng.choice([[], [], ["--fetch"], ["--no-fetch"]])
+    args = ["update", flag] + fetch_args
+    case = {"kind": "unfetched-tag", "current": cur, "remote_tag": remote_new, "args": args}
+    cfg = ('[bumpver]\ncurrent_version = "%s"\nversion_pattern = "MAJOR.MINOR.PATCH"\ncommit = true\ntag = true\npush = false\n'
+           '[bumpver.file_patterns]\n"bumpver.toml" = [\'current_version = "{version}"\']\n"ver.txt" = ["{version}"]\n' % cur)
+    with sandbox.Project("c13f") as p:
+        p.write_text("bumpver.toml", cfg)
+        p.write_text("ver.txt", "version %s here\n" % cur)
+        p.add_fake_vcs("git")
+        p.fake_set("branches", "* main 1a2b3c4 [origin/main] msg\n")
+        p.fake_set("tags", cur + "\n")
+        p.fake_set("tags_after_fetch", cur + "\n" + remote_new + "\n")
+        before = p.snapshot()
+        code_d, out_d, exc_d = sandbox.run_cli(args + ["--dry"], p.dir, p.env())
+        mid = p.snapshot()
+        log_d = p.fake_log()
+        p.fake_reset_log()
+        code_r, out_r, exc_r = sandbox.run_cli(args, p.dir, p.env())
+        after = p.snapshot()
+    case.update(dry_exit=code_d, real_exit=code_r)
+    if mid != before:
+        return case, "--dry changed files %r" % rwcommon.diff_files(before, mid)
+    muts = [a for a in log_d if len(a) > 1 and a[1] in ("add", "commit", "push") or (len(a) > 1 and a[1] == "tag" and a[2:3] != ["--list"])]
+    if muts:
+        return case, "--dry issued mutating VCS commands %r" % muts
+    if code_d != 0:
+        return case, None if after == before else "--dry reported an error (exit %s) but the real run changed %r" % (code_d, rwcommon.diff_files(before, after))
+    if code_r != 0:
+        return case, "--dry exited 0 but the real run with the same arguments exited %s" % code_r
+    texts = {k: v.decode("utf-8") for k, v in before.items()}
+    res = driver.run([{"op": "apply_diff", "diff": out_d.rstrip("\n"), "files": texts, "seps": {k: "\n" for k in texts}}])[0]
+    if "files" not in res:
+        return case, "the diff printed by --dry does not apply to the current files: %r" % (res,)
+    for k, t in res["files"].items():
+        if after[k].decode("utf-8") != t:
+            return case, "applying the diff printed by --dry to %r gives %r, the real run with the same arguments produced %r" % (k, t[:200], after[k].decode("utf-8")[:200])
+    return case, None
+
+
 def run(chk, driver, tier):
     rng = chk.rng
     n = 1200 if tier == "thorough" else 60
@@ -98,6 +144,11 @@ def run(chk, driver, tier):
         files["bumpver.toml"] = projgen.toml_config(pr, "commit = true\ntag = true\npush = false" if i % 3 == 0 else "")
         ops.append(({"op": "dry_files", "old_vinfo": pr["old_vinfo"], "new_vinfo": pr["new_vinfo"], "files": files, "file_patterns": cfg_pairs},
                     {"result": "ok", "files": {k: pr["expected_files"].get(k) for k in pr["files"]}}))
+    for i in range(n // 4):
+        case, verdict = dry_vs_real_fetch(rng, driver)
+        chk.count("unfetched_tag:%s" % " ".join(case["args"][2:] or ["default-fetch"]))
+        chk.traces += 1
+        chk.oracle_case(case, verdict)
     # the model's dry path against the independently re-materialised files (config file compared by the oracle above)
     outs = driver.run([o for o, _ in ops])
     for (o, want), got in zip(ops, outs):
@@ -117,6 +168,8 @@ def search(chk, driver, tier):
     for i in range(500):
         pr, case, op, verdict = dry_vs_real(rng, driver, "git" if i % 3 == 0 else None)
         chk.oracle_case({k: v for k, v in case.items() if k != "diff"}, verdict)
+        case, verdict = dry_vs_real_fetch(rng, driver)
+        chk.oracle_case(case, verdict)
         if chk.violations:
             return
 
